@@ -43,6 +43,7 @@ type Input struct {
 	JunkStage  bool `json:"junk_stage,omitempty"`  // .gpdb-merge-stage-777/<iface>/2024/01/<copy of a day>
 	JunkBackup bool `json:"junk_backup,omitempty"` // <first dst day>.gpdb-merge-backup-5 (copy of the day)
 	FilePoints int  `json:"file_points"`           // how many file-level crash points per run of file calls
+	TZOff      int  `json:"tz_off,omitempty"`      // process time zone of writer, merge and readers: seconds east of UTC
 }
 
 const dayLen = 86400
@@ -139,6 +140,20 @@ func fixedCases() []Input {
 	g = &idgen{}
 	// 11 huge tolerance: every non-empty day is complete
 	out = append(out, Input{Dst: []Iface{{"eth0", []Day{g.day(d0, 43200)}}}, Src: []Iface{{"eth0", []Day{g.day(d0, 600)}}}, TolSec: 100000, Overwrite: true, FilePoints: 1})
+	// process time zones away from UTC, days on month and year boundaries, plan action copy
+	for _, z := range []struct {
+		off  int
+		ts   int64
+		over bool
+	}{{-18000, 1706745600, false}, {-43200, 1704067200, true}, {19800, 1706745600, false}, {50400, 1704067200, true}, {-18000, 1704067200, false}} {
+		g := &idgen{}
+		in := Input{Src: []Iface{{"eth0", []Day{g.day(z.ts, 300, 86100)}}}, TolSec: 0, TZOff: z.off}
+		if z.over {
+			in.Dst = []Iface{{"eth0", []Day{g.day(z.ts, 300, 43200, 86100)}}}
+			in.Overwrite = true
+		}
+		out = append(out, in)
+	}
 	// month directories of several shapes: the merged day first / in the middle / last
 	out = append(out, monthCase(3, 0, true), monthCase(7, 4, true), monthCase(4, 0, true), monthCase(8, 7, true),
 		monthCase(5, 2, false), monthCase(2, 0, true))
@@ -229,6 +244,9 @@ func genInput(r *vhlib.Rand, i int, o vhlib.Opts) any {
 		in.JunkBackup = r.Chance(15)
 	}
 	in.FilePoints = r.Intn(3)
+	if r.Chance(25) {
+		in.TZOff = vhlib.Pick(r, []int{-18000, -43200, 19800, 50400, -3600})
+	}
 	return in
 }
 
@@ -287,6 +305,10 @@ func run(raw json.RawMessage, o vhlib.Opts) (*vhlib.Case, error) {
 }
 
 func runOnce(in *Input, raw json.RawMessage, o vhlib.Opts, attempt int) (*vhlib.Case, error) {
+	// every process of this case (this one writes the DBs, the children merge and read) lives in the case's zone
+	os.Setenv("C25_TZOFF", fmt.Sprint(in.TZOff))
+	setZone(fmt.Sprint(in.TZOff))
+	defer setZone("0")
 	wd, err := os.MkdirTemp(o.Work, "c25case-")
 	if err != nil {
 		return nil, err
